@@ -1,6 +1,7 @@
 package govc
 
 import (
+	"strconv"
 	"fmt"
 	"go/types"
 	"os"
@@ -98,6 +99,14 @@ func (v *Verifier) newUnit(fn *ssa.Function, opts UnitOpts) *Unit {
 func (v *Verifier) VerifyFunc(fn *ssa.Function, opts UnitOpts, so *SolveOpts) *UnitResult {
 	start := time.Now()
 	res := &UnitResult{Key: fnKey(fn)}
+	if c := v.contractFor(fn); c != nil && c.Opts != nil && c.Opts["timeout"] != "" {
+		// slow but stable obligations: a longer per-query limit for this function only
+		if secs, err := strconv.Atoi(c.Opts["timeout"]); err == nil && time.Duration(secs)*time.Second > so.Timeout {
+			cp := *so
+			cp.Timeout = time.Duration(secs) * time.Second
+			so = &cp
+		}
+	}
 	var u *Unit
 	disabled := map[string]bool{}
 	for round := 1; round <= 8; round++ {
